@@ -1942,6 +1942,11 @@ impl FileAndTime {
         }
     }
 
+    /// Returns true if this records the state of `path`
+    pub fn is_for_file(&self, path: &Path) -> bool {
+        return self.file == path;
+    }
+
     pub fn is_up_to_date(&self) -> bool {
         let file_mod_time = FileAndTime::get_metadata(&self.file);
         return self.time >= file_mod_time;
